@@ -17,6 +17,20 @@ SUB_SEGS = ["admin", "s", "types2", "audit", "t", "u", "admin"]      # a segment
 T3_NAME_VALUES = ["my_lib", "shelf", "book_shelf", "lib2", "a"]
 NS_OVERRIDE_SEGS = ["foo", "bar", "zed", "google", "cloud", "ads", "a1", "x_y"]
 DEP_PKGS = ["other.common.v1", "google.iam.v1", "google.cloud.location", "other.v1", "other", "dep.a.b.c.v2", "other.common.v1.admin"]
+# FOREIGN option keys that merely CONTAIN `python-gapic-` (another plugin's option, a typo): an option is ours iff its key STARTS
+# with the prefix; after the embedded prefix comes each suffix this plugin knows
+FOREIGN_HEADS = ["legacy-", "x-", "go-", "my_", "X", "not-", "py-python-gapic-x-"]
+KNOWN_SUFFIXES = [("name", "hijacked"), ("namespace", "evil.corp"), ("warehouse-package-name", "stolen-pkg"), ("transport", "rest"), ("transport", "grpc+rest"),
+                  ("metadata", None), ("old-naming", None), ("templates", "/nonexistent/templates"), ("autogen-snippets", "true"), ("rest-numeric-enums", None),
+                  ("lazy-import", "true"), ("add-iam-methods", None), ("proto-plus-deps", "a.b+c.d"), ("samples", "/nonexistent/samples"), ("abc", "1")]
+
+
+def foreign_option(r):
+    suffix, val = r.pick(KNOWN_SUFFIXES)
+    k = r.pick(FOREIGN_HEADS) + "python-gapic-" + suffix
+    return k if val is None else f"{k}={val}"
+
+
 COLLIDING = [("common_types", "common.types"), ("foo.bar", "foo_bar"), ("import", "import_"), ("class_", "class"), ("a_b.c", "a.b_c"), ("metadata", "metadata_")]
 
 
@@ -97,6 +111,10 @@ def gen_case(r: apigen.Rng, idx: int):
         opts = rest
     case["opts"] = opts
     case["unknown"] = r.sample(["zzz=1", "go_package=x/y", "paths=source_relative", "foo=a=b", "Mgoogle/api/x.proto=example.com/x;x", "unknown"], r.randint(1, 3))
+    # foreign keys with the prefix in the MIDDLE, after the genuine options and (`unknown_before`) before them
+    case["unknown_before"] = [foreign_option(r) for _ in range(r.pick([0, 0, 1, 2]))]
+    for _ in range(r.pick([0, 1, 1, 2])):
+        case["unknown"].insert(r.randint(0, len(case["unknown"])), foreign_option(r))
     if r.maybe(0.3):
         case["unknown"].append(f"transport={tr}")        # a repeated known key with the same value
     if r.maybe(0.3):
@@ -411,6 +429,8 @@ PKG_SEGS = ["acme", "google", "cloud", "lib", "v1", "v1beta1", "v2alpha", "v1p1b
 OPT_KEYS = ["transport", "metadata", "old-naming", "lazy-import", "add-iam-methods", "autogen-snippets", "rest-numeric-enums", "proto-plus-deps",
             "warehouse-package-name", "python-gapic-name", "python-gapic-namespace", "python-gapic-foo", "python-gapic-", "foo", "go-gapic-package",
             "Transport", "transport ", " metadata", "python-gapic-transport", "python-gapic-metadata", "name", "namespace", ""]
+OPT_KEYS += ["legacy-python-gapic-name", "x-python-gapic-namespace", "go-python-gapic-transport", "Xpython-gapic-metadata", "my_python-gapic-warehouse-package-name",
+             "not-python-gapic-old-naming", "py-python-gapic-x-python-gapic-name"]
 OPT_VALS = [None, "true", "false", "grpc", "rest", "grpc+rest", "a=b", "a=b=c", "", " x ", "T", "True", "x+y+", "acme.v1+acme.v2", "=", "Acme"]
 
 
@@ -463,6 +483,24 @@ def t2_naming_options(ctx, r):
                 impl = {"err": f"{type(e).__name__}: {e}"}
         if "err" not in impl:
             impl["unrecognised"] = [str(x.message).split("`python-gapic-", 1)[1].rstrip(".").rstrip("`") for x in w if "Unrecognized option" in str(x.message)]
+            # model-free: a foreign key that contains the prefix in the middle, put in front or at the end, changes nothing Options.build returns
+            fo = foreign_option(r)
+            if "/nonexistent" not in fo:
+                s2 = (fo + "," + s if r.maybe() else s + "," + fo) if s else fo
+                with warnings.catch_warnings(record=True) as w2:
+                    warnings.simplefilter("always")
+                    try:
+                        o2 = Options.build(s2)
+                        impl2 = {"name": o2.name, "namespace": list(o2.namespace), "warehouse": o2.warehouse_package_name, "autogen": o2.autogen_snippets, "lazy": o2.lazy_import,
+                                 "old": o2.old_naming, "iam": o2.add_iam_methods, "metadata": o2.metadata, "transport": list(o2.transport), "numeric": o2.rest_numeric_enums,
+                                 "deps": list(o2.proto_plus_deps)}
+                        impl2["unrecognised"] = [str(x.message).split("`python-gapic-", 1)[1].rstrip(".").rstrip("`") for x in w2 if "Unrecognized option" in str(x.message)]
+                    except Exception as e:
+                        impl2 = {"err": f"{type(e).__name__}: {e}"}
+                if impl2 != impl:
+                    ch = sorted(k for k in set(impl) | set(impl2) if impl.get(k) != impl2.get(k))
+                    ctx.fail("foreign-prefixed-option-read", f"Options.build({s2!r}) differs from Options.build({s!r}) in {ch}: {[(k, impl.get(k), impl2.get(k)) for k in ch][:3]} — the key of "
+                             f"{fo!r} only CONTAINS `python-gapic-`", {"opts_pair": [s, s2]})
         ops.append({"op": "c11.opts", "s": s}); metas.append(("opts", s, impl))
     for (kind, inp, impl), mo in zip(metas, ctx.driver.ask(ops)):
         ctx.case(distinct_key=[kind, json.dumps(inp)]); ctx.traces += 1
@@ -605,12 +643,22 @@ def run_case(ctx, case, label):
     mroot = ctx.driver.ask([{"op": "c11.root", "pkgs": sorted({fd["pkg"] for fd in case["files"]}), "s": params}])[0]
     oracle(ctx, case, res, files, targets, payload, mroot)
     # unknown / repeated options are ignored
-    res2, err2 = genrun.try_generate(apigen.request(files, ",".join(case["opts"] + case["unknown"]), targets=targets))
+    before = case.get("unknown_before") or []
+    res2, err2 = genrun.try_generate(apigen.request(files, ",".join(before + case["opts"] + case["unknown"]), targets=targets))
+    foreign = [u for u in before + case["unknown"] if "python-gapic-" in u.split("=", 1)[0] and not u.strip().startswith("python-gapic-")]
     if err2:
-        key = "option-with-two-equals" if any(u.count("=") > 1 for u in case["unknown"]) else "unknown-option-raises"
-        ctx.fail(key, f"unknown options {case['unknown']} make the generator raise {err2[0]}: {err2[1]}", payload)
+        key = "option-with-two-equals" if any(u.count("=") > 1 for u in case["unknown"]) else ("foreign-prefixed-option-read" if foreign else "unknown-option-raises")
+        ctx.fail(key, f"unknown options {before + case['unknown']} make the generator raise {err2[0]}: {err2[1]}", payload)
     elif res2.SerializeToString(deterministic=True) != res.SerializeToString(deterministic=True):
         diff = [a.name for a, b in zip(res.file, res2.file) if a != b][:3]
+        only2 = sorted(set(f.name for f in res2.file) - set(f.name for f in res.file))[:3]
+        if foreign:
+            # is it the foreign keys? generate once more with them alone
+            res3, err3 = genrun.try_generate(apigen.request(files, ",".join([u for u in before if u in foreign] + case["opts"] + [u for u in case["unknown"] if u in foreign]), targets=targets))
+            if err3 or res3.SerializeToString(deterministic=True) != res.SerializeToString(deterministic=True):
+                ctx.fail("foreign-prefixed-option-read", f"options of another plugin whose key only CONTAINS `python-gapic-` ({foreign}; before the genuine options: "
+                         f"{[u for u in before if u in foreign]}) change the response: {('raises ' + err3[0]) if err3 else ''} files that differ {diff}, new names {only2}", payload)
+                return
         first_tr = [o for o in case["opts"] if o.startswith("transport=")][:1]
         later_tr = [u for u in case["unknown"] if u.startswith("transport=") and u not in first_tr]
         if first_tr and later_tr:
@@ -736,7 +784,7 @@ def run(ctx):
     ctx.rule = ("layout profile: 0..3 namespace segments x versions {v1, v1beta1, v1p1beta1, v2alpha, none} x 1..3 target files with names needing "
                 "sanitising or starting/ending with underscores, with digits and upper case x optional dependency file(s) whose package has 1..5(+2) "
                 "segments (shorter / as long as / LONGER than the target package) x optional sub-package tree (1..3 levels, 1..2 branches, intermediate packages with and "
-                "without files, services/messages at any level) x option strings (known, unknown, repeated keys, "
+                "without files, services/messages at any level) x option strings (known, unknown, foreign keys containing `python-gapic-<known suffix>` in the middle before/after the genuine ones, repeated keys, "
                 "name override as 1..3 repeated keys with different values, repeated transport / warehouse-package-name, namespace override as "
                 "1..3 repeated keys each with 1..3 dotted components, interleaved); Naming.build under override option strings (0..4 namespace "
                 "values, 0..3 name / transport / warehouse values) x packages; _get_filename: every template of both template sets x random namings; distinct by case")
@@ -773,6 +821,18 @@ def replay(ctx, payload):
         run_init_proto(ctx, payload["case"])
     elif "case" in payload:
         run_case(ctx, payload["case"], "replay")
+    if "opts_pair" in payload:
+        import warnings
+        from gapic.utils import Options
+        def ob(x):
+            with warnings.catch_warnings():
+                warnings.simplefilter("ignore")
+                o = Options.build(x)
+            return (o.name, tuple(o.namespace), o.warehouse_package_name, o.autogen_snippets, o.lazy_import, o.old_naming, o.add_iam_methods, o.metadata,
+                    tuple(o.transport), o.rest_numeric_enums, tuple(o.proto_plus_deps))
+        a, b = payload["opts_pair"]
+        if ob(a) != ob(b):
+            ctx.fail("foreign-prefixed-option-read", f"Options.build({b!r}) differs from Options.build({a!r})", payload)
     if "naming" in payload:
         inp = payload["naming"]
         vals = [p.strip().split("=", 1)[1] for p in inp["params"].split(",") if p.strip().startswith("python-gapic-namespace=")]
